@@ -90,6 +90,16 @@ def implicit_concats(module, node):
 
 
 def check(ctx):
+    # sub-parsers that read a variable number of tokens end at the next Reserved word (the next clause keyword); confirmed on the
+    # reference tree, frozen here: one that stops looking at Reserved swallows the following clause in some orders only
+    ctx.rule("T6-stoppers", "parseDirect/parseFields/parseIndirect/parseRelation/.. still end their look-ahead at Reserved words")
+    STOPPERS = ("parseDirect", "parseFields", "parseIndirect", "parseRelation")
+    Bc = ctx.cls("building", "Builder")
+    for nm in STOPPERS:
+        mth = Bc.own_method(nm)
+        ctx.check(_stops_on_reserved(ctx.repo, mth), "T6-stoppers", mth, "Builder.%s ends at the next Reserved word" % nm,
+                  "a clause keyword that follows is read as data of this clause (a field name, a value): the same clauses in "
+                  "another order build something else")
     repo = ctx.repo
     bm = repo.mod("building")
     ctx.use(bm)
@@ -118,7 +128,9 @@ def check(ctx):
         V = FuncView(ctx, f)
         cl = None
         for w in walk_no_nested(f):
-            if isinstance(w, ast.While) and src(w.test) == "index < len(tokens)" and w.body and \
+            wt = w.test if isinstance(w, ast.While) else None
+            first = wt.values[0] if isinstance(wt, ast.BoolOp) and isinstance(wt.op, ast.And) else wt
+            if wt is not None and src(first) == "index < len(tokens)" and w.body and \
                     isinstance(w.body[0], ast.Assign) and dotted(w.body[0].targets[0]) == "connective":
                 cl = w
                 break
@@ -165,6 +177,13 @@ def check(ctx):
         if pre and not ok:
             stopk = {const_str(e) for e in pre[0].test.comparators[0].elts} if isinstance(pre[0].test.comparators[0], (ast.Tuple, ast.List)) else set()
             ok = K <= stopk and stopk <= K | {None}
+        if not ok and isinstance(cl.test, ast.BoolOp) and isinstance(cl.test.op, ast.And) and len(cl.test.values) == 2:
+            # the same stop list folded into the loop condition: `while index < len(tokens) and tokens[index] in K:`
+            c2 = cl.test.values[1]
+            if isinstance(c2, ast.Compare) and src(c2.left) == "tokens[index]" and isinstance(c2.ops[0], ast.In) and \
+                    isinstance(c2.comparators[0], (ast.Tuple, ast.List)):
+                stopk = {const_str(e) for e in c2.comparators[0].elts}
+                ok = K <= stopk and stopk <= K | {None}
         ctx.check(ok, "T10-else", cl, "%s: unknown connective raises ParseError" % fname,
                   "an unknown clause keyword must be a parse error in every order")
         # (A)
@@ -176,8 +195,8 @@ def check(ctx):
                         parsers.add(cal.name)
         if parsers:
             for k in sorted(K):
-                ctx.check(k in reserved, "T6-absorb", cl, "%s: clause keyword %r is Reserved (sub-parsers %s stop only at Reserved words)"
-                          % (fname, k, sorted(parsers)),
+                ctx.check(k in reserved, "T6-absorb", cl, "%s: clause keyword %r is Reserved (its sibling clauses' sub-parsers stop only at Reserved words)"
+                          % (fname, k),
                           "clause keyword %r is not in Reserved while branch sub-parsers %s of the same command stop only at "
                           "Reserved words: written after such a clause, %r is absorbed as data, so the clause order changes the "
                           "result" % (k, sorted(parsers), k))
